@@ -341,12 +341,53 @@ def Constraint.value (c : Constraint) (x : List Rat) : Rat :=
   1 - (x.take c.numFree).sum - c.sumFixed
 
 /-- `current_params[fitted_param_mask] = x` (boolean-mask assignment, values consumed in order) -/
-def scatter : List Rat → List Bool → List Rat → List Rat
+def scatter {β : Type} : List β → List Bool → List β → List β
   | [], _, _ => []
   | ps, [], _ => ps
   | p :: ps, false :: fs, xs => p :: scatter ps fs xs
   | p :: ps, true :: fs, [] => p :: scatter ps fs []
   | _ :: ps, true :: fs, x :: xs => x :: scatter ps fs xs
+
+/-- `v[fitted_param_mask]` (boolean-mask selection): the start vector `current_params[fitted_param_mask]`, the
+    bounds `[bound for bound, fitted in zip(bounds, fitted_param_mask) if fitted]` and the gradient entries
+    `jacobian(...)[fitted_param_mask]` handed to SLSQP -/
+def gather {β : Type} : List β → List Bool → List β
+  | p :: ps, true :: fs => p :: gather ps fs
+  | _ :: ps, false :: fs => gather ps fs
+  | _, _ => []
+
+/-! ## `_exponential_mle_optimize`: what is handed to SLSQP and what is reported back -/
+
+/-- everything `_exponential_mle_optimize` hands to `scipy.optimize.minimize`, and what it reports when the
+    optimiser answers `probe`: the parameters that are fitted, the start vector, the selected bounds, the reported
+    parameter vector (`current_params[fitted] = result.x`), the reported log-likelihood (`-result.fun`, the cost
+    evaluated by `cost_fun` at the reported vector) and the gradient `jac_fun` returns there -/
+structure Assembled where
+  fitted : List Bool
+  x0 : List Float
+  lo : List Float
+  hi : List Float
+  params : List Float
+  loglik : Float
+  grad : List Float
+
+def ratToFloat (r : Rat) : Float := Float.ofInt r.num / Float.ofNat r.den
+
+/-- `none` = `ValueError` of `_handle_amplitude_constraint`.  `probe` is the optimiser's answer (ignored when nothing is
+    fitted: the code then returns `initial_guess, -cost_fun([])` without calling the optimiser). -/
+def assemble (n : Nat) (params : List Rat) (mask : Option (List Bool)) (probe : List Float)
+    (obs : List (Obs Float)) (minOfTmin maxOfTmax : Float) : Option Assembled :=
+  match handleConstraint n params mask with
+  | none => none
+  | some c =>
+    let p0 := c.params.map ratToFloat
+    let b := tauBounds minOfTmin maxOfTmax
+    let los := List.replicate n (1.0e-9 : Float) ++ List.replicate n b.1
+    let his := List.replicate n ((1.0 : Float) - 1.0e-9) ++ List.replicate n b.2
+    let reported := if gather p0 c.fitted = [] then p0 else scatter p0 c.fitted probe
+    let comps := ((reported.take n).zip (reported.drop n)).map fun (a, t) => (⟨a, t⟩ : Comp Float)
+    some ⟨c.fitted, gather p0 c.fitted, gather los c.fitted, gather his c.fitted, reported,
+      logLik comps obs, gather (jacobian comps obs) c.fitted⟩
 
 /-! ## Dwell-time data of a track group (exact rationals) -/
 
@@ -620,6 +661,18 @@ def handle : List String → Option String
     | some c =>
       let v := if c.numFree = 0 then "none" else showRat (c.value x)
       some (showList showBool c.fitted ++ " " ++ toString c.numFree ++ " " ++ showRatList c.params ++ " " ++ v)
+  -- what _exponential_mle_optimize hands to the optimiser / reports for the optimiser's answer `probe`
+  | ["c15.assemble", n, params, mask, probe, ts, tmins, tmaxs, steps, lo, hi] => do
+    let n ← nat? n; let params ← ratList? params; let probe ← floatList? probe
+    let mask ← if mask == "N" then some none else (listOf? bool? mask).map some
+    let obs ← mkObs (← floatList? ts) (← floatList? tmins) (← floatList? tmaxs) (← steps? steps)
+    let lo ← float? lo; let hi ← float? hi
+    match assemble n params mask probe obs lo hi with
+    | none => some "ValueError"
+    | some a =>
+      some (showList showBool a.fitted ++ " " ++ showFloatList a.x0 ++ " " ++ showFloatList a.lo ++ " "
+        ++ showFloatList a.hi ++ " " ++ showFloatList a.params ++ " " ++ showFloat a.loglik ++ " "
+        ++ showFloatList a.grad)
   -- dwell-time extraction: flags, then one token per track
   | "c15.extract" :: excl :: om :: tracks => do
     let excl ← bool? excl; let om ← bool? om
